@@ -1,29 +1,52 @@
-(* C17 — Acyclicity, monogamy and degree queries decide their definitions, totally. (acyclicity clause: see Props/C15.v)
+(* C17 — Acyclicity, monogamy and degree queries decide their definitions, totally.
    Property theorems only: each statement is spelled out and closed by [exact] of a lemma proved in Proofs/. *)
-From OHG Require Import Spec.Plain Proofs.C17Thm.
+From OHG Require Import Spec.GraphSpec Proofs.C17Thm Proofs.C15Thm.
+
+Theorem C17_acyclic : forall B : Backend,
+       BackendOK B ->
+       forall (O A : Type) (h : hg O A),
+       wf_hg h ->
+       exists b : bool,
+         hg_is_acyclic B h = Ok b /\
+         (b = true <->
+          (forall v : nat, v < length (h_w h) -> ~ Relation_Operators.clos_trans nat (nodeR h) v v)).
+Proof. exact (@C15Thm.C17_acyclic). Qed.
+
+Theorem C17_acyclic_ohg : forall B : Backend,
+       BackendOK B ->
+       forall (O A : Type) (f : ohg O A),
+       wf_ohg f ->
+       exists b : bool,
+         ohg_is_acyclic B f = Ok b /\
+         (b = true <->
+          (forall v : nat,
+           v < length (h_w (o_h f)) -> ~ Relation_Operators.clos_trans nat (nodeR (o_h f)) v v)).
+Proof. exact (@C15Thm.C17_acyclic_ohg). Qed.
 
 Theorem C17_degrees : forall (O A : Type) (h : hg O A) (v : nat),
        wf_hg h ->
        (v < length (h_w h) -> hg_in_degree h v = Ok (indeg h v) /\ hg_out_degree h v = Ok (outdeg h v)) /\
        (length (h_w h) <= v -> hg_in_degree h v = Panic /\ hg_out_degree h v = Panic).
-Proof. exact C17Thm.C17_degrees. Qed.
+Proof. exact (@C17Thm.C17_degrees). Qed.
 
 Theorem C17_degrees_decoded : forall (O A : Type) (h : hg O A) (v : nat),
        wf_hg h ->
        indeg h v = count_occ Nat.eq_dec (concat (decode_f (h_t h))) v /\
        outdeg h v = count_occ Nat.eq_dec (concat (decode_f (h_s h))) v.
-Proof. exact C17Thm.C17_degrees_decoded. Qed.
+Proof. exact (@C17Thm.C17_degrees_decoded). Qed.
 
 Theorem C17_monogamous : forall (O A : Type) (f : ohg O A),
        wf_ohg f -> exists b : bool, ohg_is_monogamous f = Ok b /\ (b = true <-> monogamous_spec f).
-Proof. exact C17Thm.C17_monogamous. Qed.
+Proof. exact (@C17Thm.C17_monogamous). Qed.
 
 Theorem C17_total : forall (O A : Type) (f : ohg O A), wf_ohg f -> exists b : bool, ohg_is_monogamous f = Ok b.
-Proof. exact C17Thm.C17_total. Qed.
+Proof. exact (@C17Thm.C17_total). Qed.
 
 Example C17_nonvacuous : wf_ohg C17Examples.ex_mono /\ wf_ohg C17Examples.ex_off /\ monogamous_spec C17Examples.ex_mono /\ ~ monogamous_spec C17Examples.ex_off.
 Proof. exact (conj C17Examples.ex_mono_wf (conj C17Examples.ex_off_wf (conj C17Examples.ex_mono_spec C17Examples.ex_off_spec))). Qed.
 
+Print Assumptions C17_acyclic.
+Print Assumptions C17_acyclic_ohg.
 Print Assumptions C17_degrees.
 Print Assumptions C17_degrees_decoded.
 Print Assumptions C17_monogamous.
